@@ -209,8 +209,8 @@ func (c *Ctx) ViolationAs(prop, key, msg string, detail interface{}) {
 	c.Prop = old
 }
 
-func (c *Ctx) Cell(name string)            { c.cells[name]++ }
-func (c *Ctx) Count(name string, d int64)  { c.counters[name] += d }
+func (c *Ctx) Cell(name string)           { c.cells[name]++ }
+func (c *Ctx) Count(name string, d int64) { c.counters[name] += d }
 func (c *Ctx) Max(name string, v int64) {
 	if v > c.counters[name] {
 		c.counters[name] = v
